@@ -165,6 +165,14 @@ fn handle(line: &str) -> String {
             let st = song.tracks.iter().map(track_state).collect::<Vec<_>>().join(";");
             format!("ok tb={} pf={} cur={} tracks={} state={} bin={} log={}", song.timebase, pf, song.cur_track, tr, st, hex(&bin), hex(song.get_logs_str().as_bytes()))
         }
+        "run2" => {
+            // two sources: event snapshots of both (rest-shift and similar relational checks)
+            let (_s1, snap1, _pf1, _b1) = run_pipeline(&unhex_s(a[1]), false, "en");
+            let (_s2, snap2, _pf2, _b2) = run_pipeline(&unhex_s(a[2]), false, "en");
+            let t1 = snap1.iter().map(evs_str).collect::<Vec<_>>().join(";");
+            let t2 = snap2.iter().map(evs_str).collect::<Vec<_>>().join(";");
+            format!("ok tracks1={} tracks2={}", t1, t2)
+        }
         "dump" => {
             let bin = unhex(a[1]);
             let s = midi::dump_midi(&bin, false);
